@@ -145,6 +145,31 @@ def judge(layout, r, model_out):
     return search, tie, facts
 
 
+def shrink_layout(info, lay, m_exe, max_steps=14):
+    """Drops files that must be ignored anyway (kind 'o') and unused symlinks while a non-known violation
+    persists; returns the smaller layout."""
+    def still_fails(cand):
+        r = run_case(info, 9000, cand)
+        if "error" in r:
+            return False
+        mo = vf.run_filter([m_exe], [r["model_line"]], shards=1)[0]
+        s, _, _ = judge(cand, r, mo)
+        return bool(s) and s[0] != KEY_WASM
+    cur = lay
+    steps = 0
+    for rel_ in sorted(lay.files):
+        if steps >= max_steps:
+            break
+        if lay.files[rel_][0] != "o":
+            continue
+        cand = L.Layout.from_json(json.loads(json.dumps(cur.to_json())))
+        cand.files.pop(rel_, None)
+        steps += 1
+        if still_fails(cand):
+            cur = cand
+    return cur
+
+
 def e2e_rebuild(info, layout, touch_rel, name):
     """End-to-end confirmation with cargo itself: build, touch one file, build again; -> True if cargo
     recompiled the crate after the touch."""
@@ -215,9 +240,12 @@ def run(ctx):
             key, why = search
             if key == KEY_WASM and first_wasm is None:
                 first_wasm = (lay, r)
-            if key not in seen_keys and len(seen_keys) < 4:
+            if key not in seen_keys and len(seen_keys) < 3:
                 seen_keys.add(key)
-                ctx.violation(key, why, {"engine": "macroprobe", "layout": lay.to_json(), "real": facts})
+                rep_lay = lay
+                if key != KEY_WASM:
+                    rep_lay = shrink_layout(info, lay, m[1])
+                ctx.violation(key, why, {"engine": "macroprobe", "layout": rep_lay.to_json(), "real": facts})
         elif r["ok"] and first_clean is None and len(r["tracked_rp"]) >= 2:
             first_clean = (lay, r)
         if len(samples) < 3 and i >= len(corpus):
